@@ -100,7 +100,16 @@ CHECKS["C08"] = (
     "load/dump. F7 (VariantInterval pre-image without separator) recorded.",
     _NOTE + " MD5 collision freedom assumed; pickle's byte format and a process-level PYTHONHASHSEED sweep are outside the claim.",
     "DESIGN.md §3 C08")
-for _p in [ "C09", "C10", "C11", "C13", "C17",
+CHECKS["C13"] = (
+    _CH,
+    "Edit model (upstream unchanged / downstream shifted / variant inside a block: end shifted / block inside a deletion: empty) against "
+    "the real lift-over helpers with UNBOUNDED symbolic variant and block coordinates (alt lengths 0..3 driver-enumerated, 1-2 "
+    "block locations, 2-variant collections, overlap refusal); on a concrete 24-nt reference (variant offsets/spans/alts closed by "
+    "the solver, whole chromosome and chunk): alternative_genomic_sequence == literal substitution, lifted locations and "
+    "Feature/Transcript/CDS.incorporate_variants reproduce the edited reference (CDS also in frame). F4 (left-to-right collection "
+    "lift-over) recorded with its region.",
+    _NOTE + " The VCF grouping clause is outside the claim (PyVCF absent).", "DESIGN.md §3 C13")
+for _p in [ "C09", "C10", "C11", "C17",
            "C19", "C20"]:
     NOT_APPLICABLE[_p] = "check not built yet (build in progress; see DESIGN.md §3 for the planned solver-based check)"
 NOT_APPLICABLE["C12"] = ("GenBank writer cannot emit a feature on the installed Biopython (SeqFeature(strand=) TypeError), the "
